@@ -46,6 +46,62 @@ def make_fn(task_name: str, nout: int, short_by: int = 0):
     return fn
 
 
+VALUE_TYPES = ["str", "str", "str", "bytes", "bytearray", "empty", "none", "tuple", "frozenset", "bigbytes", "ndarray", "ndarray0"]
+
+
+def with_value_type(fn, vt: str):
+    """Wraps a recording callable so that what it returns / yields is the recorded string carried in another Python type: values
+    travel through serde, shared memory and the fetch path, which may treat bytes-like, empty or None values specially."""
+    if vt in (None, "str"):
+        return fn
+
+    def conv(x):
+        if vt == "bytes":
+            return x.encode()
+        if vt == "bytearray":
+            return bytearray(x.encode())
+        if vt == "empty":
+            return b""  # a value whose natural encoding has length zero
+        if vt == "none":
+            return None
+        if vt == "tuple":
+            return (x, len(x), None)
+        if vt == "frozenset":
+            return frozenset({x})
+        if vt == "bigbytes":
+            return x.encode() * 700  # larger than one datagram / one page
+        if vt == "ndarray":
+            import numpy as np
+
+            return np.frombuffer(x.encode(), dtype=np.uint8).copy()  # what most real tasks return: a multi-element array
+        if vt == "ndarray0":
+            import numpy as np
+
+            return np.float64(len(x))  # a NumPy scalar
+        raise ValueError(vt)
+
+    def wrapped(*args, **kwargs):
+        import types
+
+        r = fn(*args, **kwargs)
+        if isinstance(r, types.GeneratorType):
+            return (conv(v) for v in r)
+        return conv(r)
+
+    return wrapped
+
+
+def same_value(a, b) -> bool:
+    """Equality that also tells bytes from bytearray and a tuple from a list (== does not), and that works for arrays."""
+    if type(a) is not type(b):
+        return False
+    if type(a).__module__ == "numpy":
+        import numpy as np
+
+        return bool(np.array_equal(a, b))
+    return bool(a == b)
+
+
 cloudpickle.register_pickle_by_value(sys.modules[__name__])
 
 _static = st.one_of(
@@ -114,6 +170,7 @@ def job_specs(draw, max_tasks: int = 14, min_tasks: int = 0, max_outs: int = 4, 
             "args": args,
             "kwargs": kwargs,
             "placeholders": draw(st.booleans()),
+            "vt": draw(st.sampled_from(VALUE_TYPES)),
         })
     all_ds = [[i, o] for i, t in enumerate(tasks) for o in t["outs"]]
     if ext == "none" or not all_ds:
@@ -175,6 +232,7 @@ def build_job(spec: dict, fn_factory=make_fn, faults: dict | None = None) -> Job
             else:
                 kw[k] = s["s"]
         fn = fn_factory(t["name"], len(t["outs"])) if faults is None else fn_factory(t["name"], len(t["outs"]), faults.get(t["name"]))
+        fn = with_value_type(fn, t.get("vt"))
         tasks[t["name"]] = TaskInstance(
             definition=TaskDefinition(
                 func=TaskDefinition.func_enc(fn),
